@@ -590,6 +590,10 @@ def run(repo, chk):
         from . import c07
         from ..report import Remap
         c07.run(repo, Remap(chk, {'C07.K1': 'C09.M4'}))
+        # ... and the casts of CONSTANTS computed by the typechecker give what the run-time casts give (three positions of one
+        # cast must agree: literal, folded, run-time) - shared with the literal-narrowing tabulation C14.W2
+        from . import c14
+        c14.run(repo, Remap(chk, {'C14.W2': 'C09.M4'}))
 
     # ---------------- M5 ---------------------------------------------------------------------
     bases = repo.class_bases(OPERATORS)
